@@ -246,3 +246,15 @@ CHECKS["C09"] = {
         {"pkg": SERVER, "run": "^$", "tiers": ["thorough"], "fuzz": {"target": "^FuzzVerifFirstPacket$", "seconds": {"quick": 0, "thorough": 180}}},
     ],
 }
+
+CHECKS["C15"] = {
+    "level": "exploration",
+    "technique": "rapid-generated histories of steps in which up to 24 real client handshakes for 1..4 (UID, session id) pairs are released simultaneously against dispatchConnection (synctest bubble), interleaved with session closures and credit/expiry/cap edits through the admin API (bolt-backed manager) or an in-memory manager; reference model of live sessions and caps",
+    "level_text": "After every step the keys handed to the clients are compared per (UID, session id) pair and with the server's session objects, the number of sessions of each limited user is compared with its cap, distinct pairs must map to distinct session objects, new sessions of exhausted/expired users must be refused and every connection of a pair that got a session must have joined it; a Go runtime fault (concurrent map access) in Cloak code is a violation.",
+    "level_note": "Simultaneous handshakes run as parallel goroutines inside one quiescence step (their interleaving is the Go runtime's); closing a user's last session concurrently with admissions is C17's subject and is not generated here.",
+    "rule": "rapid draws 1..3 users (bypass or limited with cap 0..3, bolt or in-memory manager) and <=8 steps: connect (1..24 attempts over 1..4 pairs), close (not the last session), edit (cap/credit/expiry); non-trivial = >=2 handshakes for the same pair in one step, or new sessions requested beyond the cap; distinct = distinct scenarios.",
+    "assumptions": ["virtual time does not advance between steps (no inactivity closures)"],
+    "jobs": [
+        {"pkg": SERVER, "run": "^TestVerif_C15_Sessions$", "checks": {"quick": 600, "thorough": 60000}, "shards": {"thorough": 16}, "timeout": {"quick": 600}},
+    ],
+}
